@@ -1,0 +1,135 @@
+//! Verification hooks (compiled only with `--cfg egglog_verif`).
+//!
+//! * `point(id)`: a named schedule point. It counts how often the point was
+//!   passed and, when perturbation is switched on, yields / spins / sleeps for a
+//!   seeded pseudo-random while, which widens the set of interleavings a stress
+//!   run reaches. It never changes what the code computes.
+//! * `log(kind, a, b)`: appends an event to a global, totally ordered log (the
+//!   position in the log is the event's ticket). Used by the conformance harness
+//!   for its own call/return events and by a few hook sites that expose the value
+//!   an atomic read-modify-write returned.
+use std::cell::Cell;
+use std::sync::Mutex;
+use std::sync::atomic::{AtomicU64, Ordering};
+
+pub const NPOINTS: usize = 64;
+
+static SEED: AtomicU64 = AtomicU64::new(0);
+static PERMILLE: AtomicU64 = AtomicU64::new(0);
+static THREADS: AtomicU64 = AtomicU64::new(0);
+static IDS: AtomicU64 = AtomicU64::new(0);
+static LOGGING: AtomicU64 = AtomicU64::new(0);
+static COUNTS: [AtomicU64; NPOINTS] = [const { AtomicU64::new(0) }; NPOINTS];
+static LOG: Mutex<Vec<Event>> = Mutex::new(Vec::new());
+
+thread_local! {
+    static TID: Cell<u64> = const { Cell::new(0) };
+    static RNG: Cell<u64> = const { Cell::new(0) };
+    static LAST_ID: Cell<u64> = const { Cell::new(0) };
+}
+
+#[derive(Clone, Copy, Debug)]
+pub struct Event {
+    pub thread: u64,
+    pub kind: u32,
+    pub a: u64,
+    pub b: u64,
+}
+
+/// Small dense number of the calling thread (1, 2, ...).
+pub fn thread_index() -> u64 {
+    TID.with(|t| {
+        if t.get() == 0 {
+            t.set(THREADS.fetch_add(1, Ordering::SeqCst) + 1);
+        }
+        t.get()
+    })
+}
+
+/// A fresh identifier for an instrumented object; also remembered per thread so
+/// that the code that created the object can ask for it (`last_id`).
+pub fn fresh_id() -> u64 {
+    let id = IDS.fetch_add(1, Ordering::SeqCst) + 1;
+    LAST_ID.with(|l| l.set(id));
+    id
+}
+
+pub fn last_id() -> u64 {
+    LAST_ID.with(Cell::get)
+}
+
+/// Switch seeded perturbation on (`permille` > 0) or off.
+pub fn set_perturbation(seed: u64, permille: u64) {
+    SEED.store(seed, Ordering::SeqCst);
+    PERMILLE.store(permille.min(1000), Ordering::SeqCst);
+}
+
+pub fn set_logging(on: bool) {
+    LOGGING.store(on as u64, Ordering::SeqCst);
+}
+
+fn next_random() -> u64 {
+    RNG.with(|r| {
+        let mut x = r.get();
+        if x == 0 {
+            x = SEED
+                .load(Ordering::Relaxed)
+                .wrapping_mul(0x9E37_79B9_7F4A_7C15)
+                .wrapping_add(thread_index().wrapping_mul(0xD1B5_4A32_D192_ED03))
+                | 1;
+        }
+        x ^= x << 13;
+        x ^= x >> 7;
+        x ^= x << 17;
+        r.set(x);
+        x
+    })
+}
+
+/// A named schedule point.
+#[inline]
+pub fn point(id: usize) {
+    COUNTS[id % NPOINTS].fetch_add(1, Ordering::Relaxed);
+    let p = PERMILLE.load(Ordering::Relaxed);
+    if p == 0 {
+        return;
+    }
+    let r = next_random();
+    if r % 1000 >= p {
+        return;
+    }
+    match (r >> 12) % 8 {
+        0..=3 => std::thread::yield_now(),
+        4 | 5 => {
+            for _ in 0..((r >> 20) % 2000) {
+                std::hint::spin_loop();
+            }
+        }
+        6 => {
+            for _ in 0..((r >> 20) % 8) {
+                std::thread::yield_now();
+            }
+        }
+        _ => std::thread::sleep(std::time::Duration::from_micros(20 + (r >> 20) % 200)),
+    }
+}
+
+/// Append an event to the global log (no-op unless logging is on).
+pub fn log(kind: u32, a: u64, b: u64) {
+    if LOGGING.load(Ordering::Relaxed) == 0 {
+        return;
+    }
+    let thread = thread_index();
+    let mut g = LOG.lock().unwrap_or_else(|e| e.into_inner());
+    g.push(Event { thread, kind, a, b });
+}
+
+/// Take the log accumulated so far.
+pub fn drain_log() -> Vec<Event> {
+    std::mem::take(&mut *LOG.lock().unwrap_or_else(|e| e.into_inner()))
+}
+
+/// How often each schedule point was passed since the last call.
+pub fn take_counts() -> Vec<u64> {
+    COUNTS.iter().map(|c| c.swap(0, Ordering::Relaxed)).collect()
+}
